@@ -109,9 +109,10 @@ def single_loop_over_all(fn, tb):
     return h, body, exits
 
 
-def loop_exits_only_on_exhaustion(fn, head):
+def loop_exits_only_on_exhaustion(fn, head, producers=("next",)):
     """True iff every edge leaving the natural loop of `head` comes from the switch on the
-    discriminant of the `Iterator::next` result (the None arm)"""
+    discriminant of the `Iterator::next` result (the None arm); `producers` names the calls whose None means "exhausted"
+    (`Vec::pop` for `while let Some(e) = log.pop()`)"""
     body = fn.natural_loop(head)
     ok = True
     n = 0
@@ -137,7 +138,7 @@ def loop_exits_only_on_exhaustion(fn, head):
                     if st.k == "assign" and st.place.is_local() and st.place.local == d.place.local and st.rv.k == "discr":
                         src = st.rv.place.local
                         for (bb2, i2, kind, obj) in fn.defs().get(src, []):
-                            if kind == "call" and obj.callee_name() == "next":
+                            if kind == "call" and obj.callee_name() in producers:
                                 is_next = True
             if not is_next:
                 ok = False
@@ -248,10 +249,35 @@ def double_hashing_rules(ctx, rule="R08-double-hashing"):
         d = dict(r[3]) if r[0] == "adt" else {}
         m = ("field", selfp, "m")
         obj = ("param", 2, itf.local_name(2))
-        want1 = mk("Rem", ("call", "hash_utils::HashIterBuilder::h_i", (selfp, obj, const(0))), m)
-        want2 = mk("Rem", ("call", "hash_utils::HashIterBuilder::h_i", (selfp, obj, const(1))), m)
-        ctx.check(d.get("h1") == want1 and d.get("h2") == want2, rule, itf.key, itf, "h1 = h_0(x) mod m, h2 = h_1(x) mod m",
-                  "iter_for builds h1 = %s, h2 = %s; the documented scheme needs both base hashes (IV 0 and IV 1) reduced modulo m" % (fmt(d.get("h1")) if d.get("h1") else "?", fmt(d.get("h2")) if d.get("h2") else "?"))
+        HI = "hash_utils::HashIterBuilder::h_i"
+
+        def is_base_hash(t, bh, o, iv):
+            """finish() of a fresh hasher of `bh` that absorbed the IV and then the object"""
+            try:
+                return (t[0] == "call" and t[1].endswith("finish") and len(t[2]) == 1
+                        and t[2][0][:2] == ("call", "absorb:hash") and t[2][0][2][1] == o
+                        and t[2][0][2][0][:2] == ("call", "absorb:write_usize") and t[2][0][2][0][2][1] == iv
+                        and t[2][0][2][0][2][0][0] == "call" and t[2][0][2][0][2][0][1].endswith("build_hasher") and t[2][0][2][0][2][0][2] == (bh,))
+            except (IndexError, TypeError):
+                return False
+
+        hi = prog.fn(HI)
+        hi_ok = None
+        if hi is not None:
+            ctx.analysed_fns.add(hi.key)
+            hi_ok = is_base_hash(TermBuilder(hi, prog).return_term(), ("field", selfp, "buildhasher"), ("param", 2, hi.local_name(2)), ("param", 3, hi.local_name(3)))
+
+        def base(t, iv):
+            """t is h_iv(obj) mod m — through the helper h_i (whose body is then checked) or written out"""
+            if not (t is not None and t[0] == "op" and t[1] == "Rem" and len(t[2]) == 2 and t[2][1] == m):
+                return False
+            x = t[2][0]
+            if x == ("call", HI, (selfp, obj, const(iv))):
+                return bool(hi_ok)
+            return is_base_hash(x, ("field", selfp, "buildhasher"), obj, const(iv))
+        ctx.check(base(d.get("h1"), 0) and base(d.get("h2"), 1), rule, itf.key, itf, "h1 = h_0(x) mod m, h2 = h_1(x) mod m (h_i = finish of a fresh hasher fed i, then x)",
+                  "iter_for builds h1 = %s, h2 = %s; the documented scheme needs both base hashes (IV 0 and IV 1, each a fresh hasher fed the IV and the object) reduced modulo m%s" % (
+                      fmt(d.get("h1")) if d.get("h1") else "?", fmt(d.get("h2")) if d.get("h2") else "?", "; h_i is %s" % fmt(TermBuilder(hi, prog).return_term())[:160] if hi is not None and not hi_ok else ""))
     if nxt is not None:
         r = TermBuilder(nxt, prog).return_term()
         alts = r[1] if r[0] == "phi" else (r,)
